@@ -43,9 +43,12 @@ def exists(f, lo=None, hi=None):
     return any(f(*t) for t in itertools.product(range(lo, hi), repeat=n))
 
 
-def base_env(contract, inputs):
+def base_env(contract, inputs, ne_inputs=None):
     env = {"implies": implies, "forall": forall, "exists": exists}
-    env.update(getattr(contract, "native_env", {}) or {})
+    ne = getattr(contract, "native_env", None)
+    if callable(ne):
+        ne = ne(ne_inputs if ne_inputs is not None else inputs)
+    env.update(ne or {})
     env.update(inputs)
     for name, g in contract.ghost.items():
         exec(g.src.strip(), env)
@@ -96,7 +99,7 @@ def run_case(contract, inputs, only_label=None):
             result = harness(contract, call_inputs)
     except BaseException as e:  # noqa
         exc = e
-    env = base_env(contract, call_inputs)
+    env = base_env(contract, call_inputs, ne_inputs=old_inputs)
     env.update(extra)
     old_env = base_env(contract, old_inputs)
     env["__oldeval__"] = lambda s: eval(compile_clause(s), old_env)
